@@ -409,6 +409,29 @@ impl Rec {
         let pm = if o == Out::Panic { last_panic() } else { String::new() };
         self.evs.last_mut().unwrap().forms.push((form, o, pm));
     }
+    /// like `form`, for calls into `unsafe fn`s whose precondition the harness has established itself:
+    /// a defect behind such a call can abort the process (a failed `unsafe` precondition check does
+    /// not unwind), so the call in progress is first written to the breadcrumb file named by
+    /// VERIF_CRUMB; the orchestrator reports an abort with that call as a violation.
+    pub fn form_unsafe<F: FnOnce() -> Out>(&mut self, form: &'static str, f: F) {
+        if std::env::var("VERIF_NO_UNSAFE").is_ok() {
+            return; // second pass after an abort: the unsafe forms are left out, everything else is still judged
+        }
+        if let Ok(path) = std::env::var("VERIF_CRUMB") {
+            let e = self.evs.last().unwrap();
+            let mut l = String::new();
+            let _ = write!(l, "{{\"p\":\"{}\",\"op\":\"{}\",\"form\":\"{}\",\"mode\":\"{}\",\"a\":[", e.sem, e.op, form, MODE);
+            for (i, a) in e.args.iter().enumerate() {
+                if i > 0 {
+                    l.push(',');
+                }
+                a.json(&mut l);
+            }
+            l.push_str("]}\n");
+            let _ = std::fs::write(path, l);
+        }
+        self.form(form, f);
+    }
     /// a single-form event
     pub fn ev<F: FnOnce() -> Out>(&mut self, op: &'static str, args: Vec<Arg>, f: F) {
         self.fam(op, args);
